@@ -17,6 +17,7 @@ From Servitor.Facts Require Import UiFacts.
 Local Open Scope Z_scope.
 From Servitor.Facts Require Import HtmlFacts FrameFacts.
 From Servitor.Facts Require Import ThreadFacts.
+From Servitor.Facts Require Import HeldFacts.
 
 (* the invariant holds in EVERY state reachable from the bare initial screen (see reachable_only_resizes; the meaningful statement is reachable_from_inv below) *)
 Theorem reachable_inv :
@@ -823,3 +824,89 @@ Theorem thread_walk_from_start :
   thread_has I anc kids r (walk I anc kids r keys).
 Proof. exact thread_walk_from_start_fact. Qed.
 Print Assumptions thread_walk_from_start.
+
+(* every key that arrives while a page load is in flight is dropped, whatever the sequence *)
+Theorem keys_dropped_while_loading :
+  forall (I C : Type) (preload : Z) (parents : I -> nat -> list I * option I)
+  (children : I -> option C) (select_link : I -> Z -> option text)
+  (creators recipients : I -> option (list I)) (actor_of : I -> option I)
+  (media pfp banner : I -> option text) (open_link open_user : text -> opened I C)
+  (feed_named : text -> option C) (msg_unknown_feed msg_bad_command : text -> text)
+  (keys : list N) (s : ui I C),
+  u_mode I C s = MLoading ->
+  fold_left
+  (fun (s0 : ui I C) (k : N) =>
+  update I C preload parents children select_link creators recipients actor_of media pfp
+  banner open_link open_user feed_named msg_unknown_feed msg_bad_command s0 k) keys s = s.
+Proof. exact keys_dropped_while_loading_fact. Qed.
+Print Assumptions keys_dropped_while_loading.
+
+(* a load that was held while keys arrived lands on the state it was started from (the page is added after the page the user was on) *)
+Theorem held_open_lands :
+  forall (I C : Type) (preload : Z) (parents : I -> nat -> list I * option I)
+  (children : I -> option C) (harvest : C -> nat -> nat -> list I * option C * nat)
+  (select_link : I -> Z -> option text) (creators recipients : I -> option (list I))
+  (actor_of : I -> option I) (media pfp banner : I -> option text)
+  (open_link open_user : text -> opened I C) (feed_named : text -> option C)
+  (hook_fails : text -> option text) (msg_unknown_feed msg_bad_command : text -> text)
+  (keys : list N) (s : ui I C) (r : opened I C) (pre post : list (task I C)),
+  u_mode I C s = MLoading ->
+  u_tasks I C s = pre ++ TOpen I C r :: post ->
+  let s' :=
+  fold_left
+  (fun (s0 : ui I C) (k : N) =>
+  update I C preload parents children select_link creators recipients actor_of media pfp
+  banner open_link open_user feed_named msg_unknown_feed msg_bad_command s0 k) keys s
+  in
+  u_tasks I C s' = pre ++ TOpen I C r :: post /\
+  run_task I C preload parents children harvest hook_fails (remove_task I C s' pre post)
+  (TOpen I C r) =
+  frame I C
+  (set_mode I C
+  (switch_opened I C preload parents children harvest (remove_task I C s pre post) r)
+  MNormal []).
+Proof. exact held_open_lands_fact. Qed.
+Print Assumptions held_open_lands.
+
+(* the same for a feed *)
+Theorem held_feed_lands :
+  forall (I C : Type) (preload : Z) (parents : I -> nat -> list I * option I)
+  (children : I -> option C) (harvest : C -> nat -> nat -> list I * option C * nat)
+  (select_link : I -> Z -> option text) (creators recipients : I -> option (list I))
+  (actor_of : I -> option I) (media pfp banner : I -> option text)
+  (open_link open_user : text -> opened I C) (feed_named : text -> option C)
+  (hook_fails : text -> option text) (msg_unknown_feed msg_bad_command : text -> text)
+  (keys : list N) (s : ui I C) (c : C) (pre post : list (task I C)),
+  u_mode I C s = MLoading ->
+  u_tasks I C s = pre ++ TFeed I C c :: post ->
+  let s' :=
+  fold_left
+  (fun (s0 : ui I C) (k : N) =>
+  update I C preload parents children select_link creators recipients actor_of media pfp
+  banner open_link open_user feed_named msg_unknown_feed msg_bad_command s0 k) keys s
+  in
+  u_tasks I C s' = pre ++ TFeed I C c :: post /\
+  run_task I C preload parents children harvest hook_fails (remove_task I C s' pre post)
+  (TFeed I C c) =
+  frame I C
+  (set_mode I C (switch_coll I C preload harvest (remove_task I C s pre post) c) MNormal []).
+Proof. exact held_feed_lands_fact. Qed.
+Print Assumptions held_feed_lands.
+
+(* the schedules the harness forces (some goroutines held back) are schedules of the step relation *)
+Theorem settle_sel_reachable :
+  forall (I C : Type) (preload : Z) (parents : I -> nat -> list I * option I)
+  (children : I -> option C) (harvest : C -> nat -> nat -> list I * option C * nat)
+  (select_link : I -> Z -> option text) (creators recipients : I -> option (list I))
+  (actor_of : I -> option I) (media pfp banner : I -> option text)
+  (open_link open_user : text -> opened I C) (feed_named : text -> option C)
+  (hook_fails : text -> option text) (msg_unknown_feed msg_bad_command : text -> text)
+  (ok : task I C -> bool) (fuel : nat) (s0 s : ui I C),
+  reachable_from I C preload parents children harvest select_link creators recipients actor_of
+  media pfp banner open_link open_user feed_named hook_fails msg_unknown_feed
+  msg_bad_command s0 s ->
+  reachable_from I C preload parents children harvest select_link creators recipients actor_of
+  media pfp banner open_link open_user feed_named hook_fails msg_unknown_feed
+  msg_bad_command s0 (settle_sel I C preload parents children harvest hook_fails ok fuel s).
+Proof. exact settle_sel_reachable_fact. Qed.
+Print Assumptions settle_sel_reachable.
